@@ -45,7 +45,8 @@ InitC02 == \E R \in RSet : \E P \in PSet : \E m \in MaskSet : \E d \in DesSet : 
                       est |-> EstOf(e), flt |-> FltOf(fi), a |-> Slopes(R, salt, ident), b |-> Offs(R),
                       minsucc |-> 1, pms |-> pms, merged |-> merged, shared |-> shared, ident |-> ident,
                       nanF |-> [r \in 1..R |-> IF nf = 1 /\ r = 1 THEN 2 ELSE 0], nanP |-> NanPOf(np, R, P),
-                      design |-> Design(d, R, P, shared)]
+                      design |-> Design(d, R, P, shared),
+                      nsamp |-> IF (d + m) % 2 = 0 THEN 2 ELSE 1]      \* two samplers on disjoint variable sets
 
 \* exhaustive fault enumeration: design rows pairwise independent on the two free variables
 Des3(p, v) == CASE p = 1 -> <<1, 0, 0>>[v] [] p = 2 -> <<0, 0, 1>>[v] [] p = 3 -> <<1, 0, 1>>[v]
@@ -58,7 +59,8 @@ InitC03 == \E R \in RSet : \E P \in PSet :
                       minsucc |-> ms, pms |-> pms, merged |-> FALSE, shared |-> TRUE, ident |-> FALSE,
                       nanF |-> [r \in 1..R |-> IF r \in fF THEN nc ELSE 0],
                       nanP |-> [r \in 1..R |-> [p \in 1..P |-> IF <<r, p>> \in fP THEN ((nc + p) % 3) + 1 ELSE 0]],
-                      design |-> [r \in 1..R |-> [p \in 1..P |-> [v \in 1..V |-> Des3(p, v)]]]]
+                      design |-> [r \in 1..R |-> [p \in 1..P |-> [v \in 1..V |-> Des3(p, v)]]],
+                      nsamp |-> IF Cardinality(fF) % 2 = 0 THEN 2 ELSE 1]
 
 Init == /\ IF Family = "c02" THEN InitC02 ELSE InitC03
         /\ out = [st |-> "none"] /\ phase = "init"
